@@ -143,10 +143,14 @@ class TableBuilder(object):
         """
         columns = self.columns if extends is None else []
         self.manager.plugins.after_build_version_table_columns(self, columns)
-        return sa.schema.Table(
+        table = sa.schema.Table(
             extends.name if extends is not None else self.table_name,
             self.parent_table.metadata,
             *columns,
             schema=self.parent_table.schema,
             extend_existing=extends is not None
         )
+        # Remember the version table on its parent so that it can be found
+        # whatever the 'table_name' option is (see utils.version_table).
+        self.parent_table.info['version_table'] = table
+        return table
